@@ -11,7 +11,7 @@ from vlib.props import c03_discard as D
 
 PROP = "C03"
 THEOREMS = ["GitAi.Sys.no_invention", "GitAi.Sys.ghost_only_from_agent_edit", "GitAi.Sys.restore_is_valid_edit",
-            "GitAi.Sys.no_invention_all_ops", "GitAi.Sys.no_invention_all_ops_note", "GitAi.Sys.discard_drops_claims",
+            "GitAi.Sys.no_invention_all_ops", "GitAi.Sys.no_invention_all_ops_note", "GitAi.Sys.head_line_not_listed_all_ops", "GitAi.Sys.discard_drops_claims",
             "GitAi.Sys.regression_O3_stale_initial_after_path_checkout", "GitAi.Sys.regression_O20_initial_by_line_number_after_restore",
             "GitAi.Sys.regression_O17_stale_entry_after_restore", "GitAi.Sys.regression_O21_stash_drop_stale_entry",
             "GitAi.Sys.path_checkout_exact", "GitAi.Sys.regression_path_checkout_keeps_staged_ai_line",
